@@ -33,6 +33,8 @@ enum Tk {
     MapKeyTop0,
     UseUnsigned,
     UseAddress,
+    ArrKey1Add,
+    MapKeyTop1,
 }
 
 /// Slot-self-referential shapes (a slot's value used as index / key into the same or another slot): the
@@ -76,6 +78,38 @@ fn self_reference_family() -> Vec<Vec<Tk>> {
     out
 }
 
+/// Two containers whose elements are loaded from each other (or from themselves): slot types that are recursive
+/// across slots, so that the conversion of one slot's type passes through the other's.
+fn mutual_recursion_family() -> Vec<Vec<Tk>> {
+    let mut out = Vec::new();
+    let key0 = [Tk::ArrKey0Add, Tk::MapKeyTop0];
+    let key1 = [Tk::ArrKey1Add, Tk::MapKeyTop1];
+    for x in key0 {
+        for y in key1 {
+            for ta in 0..2u8 {
+                for tb in 0..2u8 {
+                    for mask in [None, Some(Tk::Mask160)] {
+                        // container at slot 0: element[calldata] = sload(ta); container at slot 1: element[calldata] = sload(tb)
+                        let mut s = vec![Tk::Sload(ta)];
+                        s.extend(mask);
+                        s.extend([Tk::Cdl0, x, Tk::SstoreTop, Tk::Sload(tb), Tk::Cdl0, y, Tk::SstoreTop]);
+                        out.push(s.clone());
+                        // the same, reading the element back before storing into the other container
+                        let mut r = vec![Tk::Cdl0, x, Tk::SloadTop];
+                        r.extend(mask);
+                        r.extend([Tk::Cdl0, y, Tk::SstoreTop, Tk::Cdl0, y, Tk::SloadTop, Tk::Cdl0, x, Tk::SstoreTop]);
+                        let _ = (ta, tb);
+                        out.push(r);
+                    }
+                }
+            }
+        }
+    }
+    out.sort_by_key(|s| format!("{s:?}"));
+    out.dedup();
+    out
+}
+
 fn alphabet() -> Vec<Tk> {
     vec![
         Tk::Sload(0),
@@ -104,7 +138,7 @@ fn arity(t: Tk) -> (usize, usize) {
     match t {
         Tk::Sload(_) | Tk::Caller | Tk::Cdl0 | Tk::MapKeyCaller0 => (0, 1),
         Tk::Sstore(_) => (1, 0),
-        Tk::Mask160 | Tk::MaskFF | Tk::IsZero | Tk::ArrKey0Add => (1, 1),
+        Tk::Mask160 | Tk::MaskFF | Tk::IsZero | Tk::ArrKey0Add | Tk::ArrKey1Add | Tk::MapKeyTop1 => (1, 1),
         Tk::Dup1 => (1, 2),
         Tk::Swap1 => (2, 2),
         Tk::SloadTop | Tk::UseSigned | Tk::MapKeyTop0 | Tk::UseUnsigned | Tk::UseAddress => (1, 1),
@@ -137,6 +171,11 @@ fn expand(seq: &[Tk]) -> Vec<u8> {
             Tk::SstoreTop => t.push(o(op::SSTORE)),
             Tk::UseSigned => t.extend([o(op::DUP1), p(0), o(op::SLT), o(op::POP)]),
             Tk::MapKeyTop0 => t.extend(mapkey_from_stack(U::ZERO)),
+            Tk::MapKeyTop1 => t.extend(mapkey_from_stack(U::ONE)),
+            Tk::ArrKey1Add => {
+                t.extend(arrkey(U::ONE));
+                t.push(o(op::ADD));
+            }
             Tk::UseUnsigned => t.extend([o(op::DUP1), p(0x20), o(op::CALLDATALOAD), o(op::LT), o(op::POP)]),
             Tk::UseAddress => t.extend([o(op::DUP1), o(op::BALANCE), o(op::POP)]),
         }
@@ -435,7 +474,7 @@ impl Check for C02 {
                 });
             }
             Chunk::SelfReference(c) => {
-                for (i, seq) in self_reference_family().into_iter().enumerate() {
+                for (i, seq) in self_reference_family().into_iter().chain(mutual_recursion_family()).enumerate() {
                     if i % 16 != c {
                         continue;
                     }
